@@ -226,6 +226,31 @@ def run_edge(chk, F, rid="R-EDGE"):
         ok, fn = nr_ok(fnq, member, cont)
         chk.ob(rid, "number|%s" % cont, ok, "%s does not number the new element by its position in the container" % fnq,
                "%s:%s" % (fn["file"], fn["line"]))
+    # an element that stays in the container must be completely initialised on every exit, exceptional ones included:
+    # add_location / add_branchpoint report a duplicate name by throwing *after* the element was appended
+    for fnq, members in (("UTAP::template_t::add_location", ("nr", "invariant", "exp_rate", "uid")),
+                         ("UTAP::template_t::add_branchpoint", ("bpNr", "uid"))):
+        fn = F.fn(fnq)
+        stmts = fn["body"].get("s", [])
+        first_throw = None
+        for i, st in enumerate(stmts):
+            if any(x.get("k") == "throw" for x in walk(st)) or \
+                    any(x.get("k") == "return" for x in walk(st)) and i < len(stmts) - 1:
+                first_throw = i
+                break
+        for mname in members:
+            pos = None
+            for i, st in enumerate(stmts):
+                for x in walk(st):
+                    if x.get("k") in ("bin", "call") and x.get("op") == "=":
+                        lhs = x.get("lhs") or x.get("recv") or (x.get("args") or [None])[0]
+                        if isinstance(lhs, dict) and lhs.get("k") == "member" and lhs.get("name") == mname:
+                            pos = i if pos is None else pos
+            ok = pos is not None and (first_throw is None or pos < first_throw)
+            chk.ob(rid, "complete|%s|%s" % (fnq.split("::")[-1], mname), ok,
+                   "%s can leave (throw / early return at statement %s) before assigning `%s` of the element it has "
+                   "already appended: the element stays in the document with a default `%s` (numbers are no longer "
+                   "dense, labels are lost)" % (fnq, first_throw, mname, mname), "%s:%s" % (fn["file"], fn["line"]))
     ok = False
     for d in walk(ae["body"]):
         if d.get("k") == "decl":
